@@ -10,6 +10,7 @@ Confirms one seeded change independently and records which registered checks cat
 """
 import json
 import os
+import re
 import shutil
 import subprocess
 import sys
@@ -60,7 +61,8 @@ def main():
             t0 = time.time()
             rc, out = sh('/venv/bin/python -m pytest -q -p no:cacheprovider -n 12 --timeout=900 tests', cwd=scratch,
                          timeout=7200)
-            meta['suite_with_change'] = {'rc': rc, 'summary': out.strip().splitlines()[-1][:200],
+            summ = [l for l in out.splitlines() if re.search(r'\d+ (passed|failed|error)', l)]
+            meta['suite_with_change'] = {'rc': rc, 'summary': (summ[-1] if summ else out.strip().splitlines()[-1])[:200],
                                          'failed': [l[:200] for l in out.splitlines() if l.startswith('FAILED')][:10],
                                          'cmd': 'pytest -q -n 12 tests (whole suite, inside the scratch worktree)',
                                          'wall_s': round(time.time() - t0)}
